@@ -8,4 +8,7 @@ def run(eng, lib, name, tier="quick"):
     if name == "shard":
         from props import shard
         return shard.run(eng, lib, tier)
+    if name == "client":
+        from props import client
+        return client.run(eng, lib, tier)
     raise RuntimeError(f"unknown special job {name}")
